@@ -77,7 +77,7 @@ BF(name, attr, kind, cls, nullable, path) ==
   [name |-> name, attr |-> attr, kind |-> kind, cls |-> cls, tfty |-> TfTyOf(cls), zero |-> HasZeroLit(cls),
    nullable |-> nullable, oneof |-> "", embed |-> "", placeholder |-> FALSE, path |-> path, msg |-> NoMsg,
    required |-> FALSE, computed |-> FALSE, sensitive |-> FALSE, validators |-> <<>>, planmods |-> <<>>,
-   desc |-> <<>>, suffix |-> "", gopath |-> <<name>>, proto |-> name, fixeddesc |-> "", pzero |-> Nil, pmixed |-> FALSE]
+   desc |-> <<>>, suffix |-> "", gopath |-> <<name>>, proto |-> name, tn |-> "", fixeddesc |-> "", pzero |-> Nil, pmixed |-> FALSE]
 
 PlaceholderDesc == "Automatically generated field preventing empty message errors"
 
@@ -140,18 +140,18 @@ InjTT(inj) == [a \in {inj[i].name : i \in DOMAIN inj} |-> TPrim(inj[CHOOSE i \in
 Merge(f, g) == [x \in (DOMAIN f) \cup (DOMAIN g) |-> IF x \in DOMAIN g THEN g[x] ELSE f[x]]
 
 \* ---- BuildMessage / BuildFields / BuildField
-RECURSIVE BuildMsg(_, _, _, _, _)
-RECURSIVE BuildFieldsFrom(_, _, _, _, _, _)
+RECURSIVE BuildMsg(_, _, _, _, _, _)
+RECURSIVE BuildFieldsFrom(_, _, _, _, _, _, _)
 
 \* result of BuildMsg: [ok, m, err]
 NoBuilt == [name |-> "", path |-> "", empty |-> TRUE, oneofs |-> <<>>, fields |-> <<>>, injected |-> <<>>,
-            zero |-> Nil, tt |-> TNone]
+            zero |-> Nil, tt |-> TNone, depth |-> 0, hasembed |-> FALSE]
 
-BuildField(d, cfg, m, mpath, i, fuel) ==
+BuildField(q, d, cfg, m, mpath, i, fuel) ==
   LET f == m.fields[i]
       tn == m.name \o "." \o f.name
       \* NewFieldBuildContext: an embedded field's path is the message name, not the message path
-      path == IF f.embed THEN (IF Q("embedPathReset") THEN m.name ELSE mpath) ELSE mpath \o "." \o f.name
+      path == IF f.embed THEN (IF q /\ Q("embedPathReset") THEN m.name ELSE mpath) ELSE mpath \o "." \o f.name
       cls == TfClass(cfg, f)
       computed == FlagValue(cfg.computed, tn, path)
       base == [BF(GoName(f.name), NameSnake(cfg, f, tn, path), "prim", cls, GoPointer(f), path) EXCEPT
@@ -162,6 +162,7 @@ BuildField(d, cfg, m, mpath, i, fuel) ==
                  !.planmods = PlanMods(cfg, tn, path, computed),
                  !.desc = f.comment,
                  !.proto = f.name,
+                 !.tn = tn,
                  !.oneof = IF f.oneof = "" THEN "" ELSE GoName(f.oneof)]
       iscustom == f.custom # "" \/ KVHas(cfg.customtypes, path)
       custom(F) == IF iscustom THEN [F EXCEPT !.kind = "custom", !.suffix = SuffixOf(cfg, CustomTypeOf(cfg, f, path))] ELSE F
@@ -171,13 +172,13 @@ BuildField(d, cfg, m, mpath, i, fuel) ==
   ELSE IF f.card = "map" THEN
       IF f.mapkey # "string" THEN Fail(path)
       ELSE IF f.ty = "msg" /\ ~IsTime(f) THEN
-         LET sub == BuildMsg(d, cfg, f.ref, path, fuel - 1)
+         LET sub == BuildMsg(q, d, cfg, f.ref, path, fuel - 1)
          IN IF ~sub.ok THEN Fail(sub.err)
             ELSE Ok(<<custom([base EXCEPT !.kind = "objmap", !.msg = <<sub.m>>, !.zero = FALSE])>>)
       \* a map field's own ZeroValue stays empty: element null-ness differs from lists
       ELSE Ok(<<custom([base EXCEPT !.kind = "primmap", !.zero = FALSE])>>)
   ELSE IF f.ty = "msg" /\ ~IsTime(f) THEN
-      LET sub == BuildMsg(d, cfg, f.ref, path, fuel - 1)
+      LET sub == BuildMsg(q, d, cfg, f.ref, path, fuel - 1)
       IN IF ~sub.ok THEN Fail(sub.err)
          ELSE IF f.embed /\ f.card = "one" THEN
             \* the message's fields replace the field; nullable: each child remembers its parent
@@ -192,28 +193,32 @@ BuildField(d, cfg, m, mpath, i, fuel) ==
   ELSE IF f.card = "rep" THEN Ok(<<custom([base EXCEPT !.kind = "primlist"])>>)
   ELSE Ok(<<custom(base)>>)
 
-BuildFieldsFrom(d, cfg, m, mpath, i, fuel) ==
+BuildFieldsFrom(q, d, cfg, m, mpath, i, fuel) ==
   IF i > Len(m.fields) THEN Ok(<<>>)
-  ELSE LET one == BuildField(d, cfg, m, mpath, i, fuel)
+  ELSE LET one == BuildField(q, d, cfg, m, mpath, i, fuel)
        IN IF ~one.ok THEN one
-          ELSE LET rest == BuildFieldsFrom(d, cfg, m, mpath, i + 1, fuel)
+          ELSE LET rest == BuildFieldsFrom(q, d, cfg, m, mpath, i + 1, fuel)
                IN IF ~rest.ok THEN rest ELSE Ok(one.fs \o rest.fs)
 
-BuildMsg(d, cfg, mn, path, fuel) ==
+BuildMsg(q, d, cfg, mn, path, fuel) ==
   IF fuel = 0 \/ mn \notin MsgNames(d) THEN [ok |-> FALSE, m |-> NoBuilt, err |-> path]
   ELSE
   LET m == MsgNamed(d, mn)
       empty == Len(m.fields) = 0
-      built == IF empty THEN Ok(<<Placeholder(path)>>) ELSE BuildFieldsFrom(d, cfg, m, path, 1, fuel)
+      built == IF empty THEN Ok(<<Placeholder(path)>>) ELSE BuildFieldsFrom(q, d, cfg, m, path, 1, fuel)
       fs == IF cfg.sort /\ ~empty THEN SortFields(built.fs) ELSE built.fs
       inj == InjectedOf(cfg, path)
   IN IF ~built.ok THEN [ok |-> FALSE, m |-> NoBuilt, err |-> built.err]
      ELSE [ok |-> TRUE, err |-> "",
            m |-> [name |-> mn, path |-> path, empty |-> empty, oneofs |-> OneofHolders(m), fields |-> fs,
-                  injected |-> inj, zero |-> ZeroStruct(d, mn), tt |-> TObj(Merge(TTofFields(fs), InjTT(inj)))]]
+                  injected |-> inj, zero |-> ZeroStruct(d, mn), tt |-> TObj(Merge(TTofFields(fs), InjTT(inj))),
+                  depth |-> 6 - fuel, hasembed |-> \E i \in DOMAIN m.fields : m.fields[i].embed]]
 
-\* A root message: path = its name (message.go: BuildMessage, isRoot)
-BuildRoot(d, cfg, root) == BuildMsg(d, cfg, root, root, 6)
+\* A root message: path = its name (message.go: BuildMessage, isRoot).
+\* BuildRoot is the DOCUMENTED mapping (what the Contract quantifies over); BuildRootImpl additionally applies
+\* the named deviations of the current tree (Quirks.tla) and feeds the Impl model.
+BuildRoot(d, cfg, root) == BuildMsg(FALSE, d, cfg, root, root, 6)
+BuildRootImpl(d, cfg, root) == BuildMsg(TRUE, d, cfg, root, root, 6)
 
 Selected(d, cfg) == {n \in MsgNames(d) : n \in Range(cfg.types)}
 
